@@ -92,12 +92,13 @@ Definition adjust_first (spec: dspec) (decls: list dinfo) : M (dspec * list dinf
       | None =>
         let ty := s_type spec in
         bad <- (if Nat.ltb (length ty) 2 then ret true
+                else if negb (match last_opt ty with Some t => is_cls P C_IdentifierType t | None => false end) then ret true
                 else ns <- last_type_names ty ;;
                      if negb (Nat.eqb (length ns) 1) then ret true
                      else n0 <- first_name ns ;; b <- is_type_in_scope P n0 ;; ret (negb b)) ;;
         if bad then
           match ty with
-          | [] => fail (L_raw P (s2l "?")) (s2l "Invalid declaration")
+          | [] => fl <- cur_file P ;; fail (L_file P fl) (s2l "Invalid declaration")
           | t0 :: _ => c <- coordA P t0 ;; fail (loc_of P c) (s2l "Invalid declaration")
           end
         else
@@ -198,8 +199,8 @@ Definition count_if (f: N -> bool) (s: str) : nat := length (filter f s).
 Definition is_lL (c: N) : bool := N.eqb c 108 || N.eqb c 76.
 Definition is_uU (c: N) : bool := N.eqb c 117 || N.eqb c 85.
 
-Definition int_const_type (v: str) : option str :=   (* None = ValueError *)
-  let tail := last_n 3 v in
+Definition int_const_type (is_multichar: bool) (v: str) : option str :=   (* None = ValueError *)
+  let tail := if is_multichar then [] else last_n 3 v in
   (* the loop counts l/L first, then u/U, per character *)
   let l := count_if is_lL tail in
   let u := count_if (fun c => negb (is_lL c) && is_uU c) tail in
